@@ -122,8 +122,7 @@ def run_map(prop, seed, tier, replay):
            "transitions": st["tlc_states"] + sum(m["states"] for m in ms.values()),
            "traces_validated_against_impl": st["records"], "evaluations": st["cases"], "samples": samples,
            "design_models": ms, "pipeline_wall_s": round(st.get("wall", 0), 1),
-           "original_maps_with_range_tokens": sum(1 for c in res["cases"].values()
-                                                  if any(t.get("rng") for t in (c.get("otoks") or []))),
+           "original_maps_with_range_tokens": sum(1 for c in res["cases"].values() if c.get("range_tokens")),
            "rule": "design models: MC_Chain (chaining algorithm = exact composition on ALL small map pairs, with and without "
                    "range tokens) and MC_Reader (full "
                    "product of reference kinds x parent answers x settings, every tuple replayed); observations: programs with "
